@@ -153,7 +153,7 @@ _PROCESS_DEPENDENT = [
 ]
 
 
-SPECIAL_BLOCKS = ("doc", "spell", "deep", "settle", "loader", "overused", "boolexpr")
+SPECIAL_BLOCKS = ("doc", "spell", "deep", "settle", "loader", "overused", "boolexpr", "decofirst")
 
 
 def gen_module(rng: random.Random, process_dependent: bool = False, special: bool = False, force: Optional[str] = None) -> str:
@@ -187,6 +187,28 @@ def gen_module(rng: random.Random, process_dependent: bool = False, special: boo
         lines.append(rng.choice([f'z = tuple(["{val}", 1])', f'z = list(("{val}", 2))', f'z = set(["{val}"])', f'w = [x for x in ["{val}"]]\nz = list(w)']))
         lines.append("print(z, " + ", ".join(f"s{i}" for i in range(len(spellings))) + ")")
         text = "\n".join(lines) + "\n"
+        try:
+            ast.parse(text)
+            return text
+        except (SyntaxError, ValueError):
+            pass
+    if force == "decofirst" or (force is None and special and rng.random() < 0.08):
+        # the first real statement is a decorated definition, and names are used that are never imported:
+        # whatever gets inserted must not come between a decorator and its definition
+        mods = rng.sample(["os", "sys", "re", "json", "math"], rng.randint(1, 2))
+        deco = rng.choice(["functools.lru_cache(maxsize=None)", "functools.wraps(print)", "dataclasses.dataclass", "contextlib.contextmanager"])
+        head = rng.choice(['"""Module docstring."""\n', "", '"""Doc.\n\nMore.\n"""\n', "from __future__ import annotations\n"])
+        if deco.startswith("dataclasses"):
+            body = f"@{deco}\nclass Holder:\n    value: int = 0\n\n    def show(self):\n        return {mods[0]}.__name__\n"
+            tail = "print(Holder().show())\n"
+        elif deco.startswith("contextlib"):
+            body = f"@{deco}\ndef managed(x):\n    yield {mods[0]}.__name__\n"
+            tail = "print(managed(1))\n"
+        else:
+            body = f"@{deco}\ndef cached(x):\n    return {mods[0]}.__name__, x\n"
+            tail = "print(cached(1))\n"
+        extra = "".join(f"print({m}.__name__)\n" for m in mods[1:])
+        text = head + body + "\n\n" + tail + extra
         try:
             ast.parse(text)
             return text
